@@ -55,22 +55,24 @@
 #define HSUBS(n) (HAS_SUBJ(n) && KIDS(n).g_hsubs)
 #define DEF_LIVE(n) (BEQ(KIDS(n).g_live, HSUBS(n) || KIDS(n).g_clive))
 /* facts every child c satisfies, over the fields of the child node only (instances of the hereditary invariant) */
-#define KID_FACTS(m, c) (BEQ(KIDS(c).g_live, HSUBS(c) || KIDS(c).g_clive) &&              /* LIVE unfolded at the child */ \
+#define KID_FACTS(m, c) ((long)KIDS(c).g_lvl == (long)(m)->g_lvl + 1 &&                       /* a child is one level deeper */ \
+                         BEQ(KIDS(c).g_live, HSUBS(c) || KIDS(c).g_clive) &&              /* LIVE unfolded at the child */ \
                          (!KIDS(c).g_clive || KIDS(c).len > 0) &&                          /* a live grandchild is a grandchild */ \
                          (!(KIDS(c).g_win && g_wlive) || KIDS(c).g_live) &&                /* W live and below c: c is live */ \
                          (!(m)->g_full || KIDS(c).g_full) &&                               /* FULL is hereditary */ \
                          (!KIDS(c).g_live || (m)->g_clive))                                /* a live child makes g_clive true */
 /* what the recursive step leaves behind at a child it was applied to (the twin's ensures, restated) */
 #define KID_POSTREC(c) (!(KIDS(c).g_full && KIDS(c).len > 0) || KIDS(c).g_clive)
-/* the same at a tracked index x of node n (requires / loop invariants), together with the map invariant key = name */
-#define KIDX(n, x) ((x) < KIDS(n).len ==> (KID_FACTS(&KIDS(n), CH(n, x)) && KEYOF(n, x) == CH(n, x)->m_name.id))
-#define KIDL(n, x, pos) ((x) < KIDS(n).len ==> (KID_FACTS(&KIDS(n), CH(n, x)) && ((x) < (pos) ==> KID_POSTREC(CH(n, x)))))
+/* the same for the tracked child *g_trk at index g_tx of node n (requires / loop invariants), with the map invariant key = name */
+#define TRK_IN(n) (g_tx < KIDS(n).len)
+#define KIDT(n) (TRK_IN(n) ==> (KID_FACTS(&KIDS(n), g_trk) && KEYOF(n, g_tx) == g_trk->m_name.id))
+#define KIDTL(n, pos) (TRK_IN(n) ==> (KID_FACTS(&KIDS(n), g_trk) && (g_tx < (pos) ==> KID_POSTREC(g_trk))))
 /* the path from n towards W, one step */
 #define W_PATH(n) ((KIDS(n).g_isw ==> KIDS(n).g_win) && KIDS(n).g_wchild <= KIDS(n).len && \
-                   ((KIDS(n).g_win && !KIDS(n).g_isw) ==> (KIDS(n).g_wchild < KIDS(n).len && KIDS(CHW(n)).g_win)))
+                   ((KIDS(n).g_win && !KIDS(n).g_isw) ==> KIDS(n).g_wchild < KIDS(n).len))
 /* self: W and liveness witnesses */
 #define LIVE_FACTS(n) (DEF_LIVE(n) && (!(KIDS(n).g_win && g_wlive) || KIDS(n).g_live) && (!(KIDS(n).g_isw && g_wlive) || HSUBS(n)) && \
-                       KIDS(n).g_lchild <= KIDS(n).len && (KIDS(n).g_clive ==> (KIDS(n).g_lchild < KIDS(n).len && KIDS(CH(n, KIDS(n).g_lchild)).g_live)) && \
+                       KIDS(n).g_lchild <= KIDS(n).len && (KIDS(n).g_clive ==> KIDS(n).g_lchild < KIDS(n).len) && \
                        (!HAS_SUBJ(n) || BEQ((n)->m_subject.p->c.has_subs, KIDS(n).g_hsubs)))
 #define FULL_FACTS(n, lv) (KIDS(n).g_full ==> (MATCH(n, lv) && (KIDS(n).len == 0 || (!LEAF(lv) && NLVL(lv).is_rx))))
 #define ERASE_IF_SHRINK X_erase_if__map_std_basic_string_char_tulz_SubjectRouter_Node_std_less_std_basic_string_char_std_allocator_std_pair_const_std_basic_string_char_tulz_SubjectRouter_Node_ref_closure_Node__shrink_1
